@@ -9,12 +9,13 @@
      dry_model q W k files the model of src/linters/dry built from Gen/DryGen.v under quirk vector q
    Domain: 1 <= W (min_duplicate_lines; the correspondence check uses W >= 2), 2 <= k (min_occurrences). *)
 From TL Require Import Lib.Base Lib.GenTypes Model.DryBase Model.DryPipe Gen.DryGen Model.Dry Model.DrySpec
-     Model.DryRun Actual.DryActual Proofs.DryGreedy Proofs.DryStageB Proofs.DryStageA Proofs.DryMain Proofs.DryMsg Proofs.DryOracle.
+     Model.DryRun Model.DryWitness Actual.DryActual Proofs.DryGreedy Proofs.DryStageB Proofs.DryStageA Proofs.DryMain Proofs.DryMsg Proofs.DryOracle.
 
-(* 0. With every quirk flag off the model built from the source IS the reference pipeline: exact equality
-      of the reported list, for all projects and all W, k. *)
+(* 0. With the two text flags off the model built from the source IS the reference pipeline: exact equality of the
+      reported list, for all projects and all W, k - whether the overlap test of the violation filter is the
+      hand-written one or the one read from the source (q_overlap_asym on: repaired by fix f9c5945). *)
 Theorem C03_model_is_reference : forall q W k files,
-  q_strip_in_code q = false -> q_block_comment_kept q = false -> q_overlap_asym q = false ->
+  q_strip_in_code q = false -> q_block_comment_kept q = false ->
   dry_model q W k files = ref_report W k files.
 Proof. exact model_eq_ref_off. Qed.
 Print Assumptions C03_model_is_reference.
@@ -87,11 +88,11 @@ Print Assumptions C03_filtered_complete.
 
 (* 8. Confinement (partial: the full statements are 0-5).  For an ARBITRARY quirk vector - in particular the
       one claimed for the current tree - the model satisfies every clause on every project outside the
-      defect classes of the flags that are on: strip_in_code only matters when the code part of some line
-      contains `#` or `//`, block_comment_kept only when a /* */ comment occurs, overlap_asym only when some
-      stored window spans more than W source lines. *)
+      defect classes of the text flags that are on: strip_in_code only matters when the code part of some line
+      contains `#` or `//`, block_comment_kept only when a /* */ comment occurs.  (The guard for the overlap test
+      - every stored window spans exactly W lines - was dropped when fix f9c5945 repaired it.) *)
 Theorem C03_confined_partial : forall q W k files, 1 <= W -> 2 <= k ->
-  lines_ok q files -> (q_overlap_asym q = true -> dense W (ref_rows W files) = true) ->
+  lines_ok q files ->
   let R := dry_model q W k files in
   sound files W R /\ mutual R /\ (forall v, In v R -> count_ok (ref_rows W files) v) /\ complete (ref_rows W files) k R
   /\ ((forall a b, In a (ref_rows W files) -> In b (ref_rows W files) -> r_snip a = r_snip b -> a = b) -> R = []).
@@ -103,6 +104,7 @@ Theorem C03_source_literals :
   dry_comment_markers = ["#"; "//"] /\ dry_norm_sep = " "
   /\ (forall t st, dry_should_skip t st = ref_skip t st)
   /\ (forall s1 e1 s2 e2, dry_blocks_overlap s1 e1 s2 e2 = (s1 <=? e2) && (s2 <=? e1))
+  /\ (forall l1 l2 c1 c2, dry_viol_overlap l1 l2 c1 c2 = (l1 <? l2 + c2))
   /\ (forall n k, dry_meets n k = negb (n =? 0) && (k <=? n))
   /\ (forall s e, dry_line_count s e = e - s + 1)
   /\ (dry_dup_cmp = CGe /\ dry_dup_min = 2 /\ dry_order_by = ["file_path"; "start_line"])
@@ -111,8 +113,8 @@ Theorem C03_source_literals :
   /\ (dry_count_open = "(" /\ dry_count_open_off = 1 /\ dry_count_close = " lines")
   /\ dry_rule_id = "dry.duplicate-code".
 Proof.
-  exact (conj gen_markers (conj gen_norm_sep (conj gen_skip (conj gen_blocks_overlap (conj gen_meets (conj gen_line_count
-        (conj gen_sql (conj gen_message_format (conj gen_extract_literals gen_rule_id))))))))).
+  exact (conj gen_markers (conj gen_norm_sep (conj gen_skip (conj gen_blocks_overlap (conj gen_viol_overlap (conj gen_meets (conj gen_line_count
+        (conj gen_sql (conj gen_message_format (conj gen_extract_literals gen_rule_id)))))))))).
 Qed.
 Print Assumptions C03_source_literals.
 
@@ -137,6 +139,17 @@ Print Assumptions C03_oracle_count_clause.
 Theorem C03_oracle_complete_clause : forall rows k R, rows_ok rows -> 2 <= k -> complete_b rows k R = true -> complete rows k R.
 Proof. exact complete_b_complete. Qed.
 Print Assumptions C03_oracle_complete_clause.
+
+(* 12. Regression of the repaired finding q_overlap_asym (fix f9c5945): on its old witness the model under the vector
+       claimed for the current tree now reports block Q of file 0 (lines 6-10) as well, equals the reference,
+       and the reported list is mutual and complete. *)
+Example C03_overlap_witness_regression :
+  dry_model dry_actual 3 2 overlap_asym_w
+  = [Build_viol 0 2 1 3 2 [(1, 2, 4)]; Build_viol 0 6 1 5 2 [(1, 8, 10)]; Build_viol 1 2 1 3 2 [(0, 2, 4)]; Build_viol 1 8 1 3 2 [(0, 6, 10)]]
+  /\ dry_model dry_actual 3 2 overlap_asym_w = ref_report 3 2 overlap_asym_w
+  /\ mutual_b (dry_model dry_actual 3 2 overlap_asym_w) = true
+  /\ complete_b (ref_rows 3 overlap_asym_w) 2 (dry_model dry_actual 3 2 overlap_asym_w) = true.
+Proof. vm_compute. repeat split; reflexivity. Qed.
 
 (* non-vacuity: a two-file project sharing a 3-statement run (different indentation, a comment and a blank
    line interleaved): both places are reported, each naming the other, with the documented message *)
